@@ -158,8 +158,12 @@ def binop(cx, op: ast.operator, a, b):
         # Python floor semantics; z3 div/mod are Euclidean: equal for positive divisors
         if isinstance(b, int) and b > 0:
             return SInt(ta / tb) if isinstance(op, ast.FloorDiv) else SInt(ta % tb, 0, b - 1)
-        q = z3.If(tb > 0, ta / tb, -((-ta) / (-tb)) if False else z3.If(ta % tb == 0, ta / tb, ta / tb - 0))
-        raise Unsupported("floor division by a possibly negative symbolic divisor")
+        # symbolic divisor of unknown sign: floor(a / b) = (-a) div (-b) for b < 0 (SMT-LIB div is floor for positive divisors);
+        # a % b = a - b * (a // b) has the sign of b.  Cross-checked against CPython by tools/crosscheck.py.
+        q = z3.If(tb > 0, ta / tb, (-ta) / (-tb))
+        if isinstance(op, ast.FloorDiv):
+            return SInt(q)
+        return SInt(ta - tb * q)
     if isinstance(op, ast.Add):
         if isinstance(a, SList) or isinstance(b, SList):
             return list_concat(cx, a, b)
